@@ -17,12 +17,12 @@ func ParseTargetType(targetCtx string) string {
 		fieldType := mapFields[targetCtx]
 		formalType := formalParameters[targetCtx]
 		localVarType := localVars[targetCtx]
-		if fieldType != "" {
-			targetType = fieldType
+		if localVarType != "" {
+			targetType = localVarType
 		} else if formalType != "" {
 			targetType = formalType
-		} else if localVarType != "" {
-			targetType = localVarType
+		} else if fieldType != "" {
+			targetType = fieldType
 		}
 	}
 
